@@ -142,8 +142,9 @@ func DecodePropFindRequest(r *http.Request) (*PropFind, error) {
 			return nil, err
 		}
 	} else {
+		// a Read may return the last byte together with io.EOF
 		var b [1]byte
-		if _, err := r.Body.Read(b[:]); err != io.EOF {
+		if n, err := r.Body.Read(b[:]); n > 0 || err != io.EOF {
 			return nil, HTTPErrorf(http.StatusBadRequest, "webdav: unsupported request body")
 		}
 		propfind.AllProp = &struct{}{}
